@@ -7,7 +7,7 @@ Local Notation byte := N (only parsing).
 Local Notation str := (list N) (only parsing).
 
 (* Base/Bytes.v defines its aliases as constants; rewriting needs them gone from implicit arguments *)
-Ltac nrm := unfold Bytes.str, Bytes.byte in *.
+Ltac nrm := idtac.
 
 (* ================= decimal renderings are JSON numbers ================= *)
 
